@@ -59,6 +59,7 @@ type c19Inst struct {
 
 type c19Shared struct {
 	ext, extSorted, sp, nest []string
+	family                   []string // 5/10/12/5/2, a far finer unrelated voxel, then the seven siblings of the first
 	points                   []*object.Point
 	pointsJP                 []*object.Point
 	a, b                     *object.Point
@@ -78,7 +79,7 @@ type c19Shared struct {
 
 func (s *c19Shared) snapshot() string {
 	var b strings.Builder
-	for _, l := range [][]string{s.ext, s.extSorted, s.sp, s.nest, s.strs} {
+	for _, l := range [][]string{s.ext, s.extSorted, s.sp, s.nest, s.strs, s.family} {
 		fmt.Fprintf(&b, "%q|", l)
 	}
 	for _, l := range [][]*object.Point{s.points, s.pointsJP, {s.a, s.b}} {
@@ -125,6 +126,7 @@ func c19Build() (*c19Shared, []c19Inst) {
 	s.ext = []string{"20/85263/65423/20/-3", "20/85263/65423/20/-3", "20/85264/65423/20/2", "21/170526/130846/22/-9", "19/42631/32711/19/-1", "20/85263/65424/21/5"}
 	s.extSorted = []string{"22/10/10/20/-4", "22/10/10/20/-4", "22/10/11/20/-4", "22/11/10/20/-4", "22/11/11/20/-4", "22/11/11/20/-4"} // ascending, with duplicates
 	s.sp = []string{"20/-3/85263/65423", "20/2/85264/65423", "21/-9/170526/130846", "19/-1/42631/32711"}
+	s.family = []string{"5/10/12/5/2", "9/300/77/9/400", "5/10/12/5/3", "5/10/13/5/2", "5/10/13/5/3", "5/11/12/5/2", "5/11/12/5/3", "5/11/13/5/2", "5/11/13/5/3"}
 	s.nest = []string{"11/1810/806/12/7", "11/1811/807/12/7", "10/905/403/12/7", "10/905/403/11/3", "10/905/403/11/3"}
 	mk := func(lon, lat, alt float64) *object.Point { p, _ := object.NewPoint(lon, lat, alt); return p }
 	s.points = []*object.Point{mk(139.753098, 35.685371, 100), mk(139.753098, 35.685371, -20.5), mk(-179.9999, -84.9, 0), mk(0, 0, -0.001), mk(180, 85.05, 33554432)}
@@ -220,6 +222,10 @@ func c19Build() (*c19Shared, []c19Inst) {
 		I("integrate.ChangeExtendedSpatialIdsZoom(nested)", func() string { return sortedJoin(integrate.ChangeExtendedSpatialIdsZoom(s.nest, 11, 12)) }),
 		I("integrate.ChangeSpatialIdsZoom", func() string { return sortedJoin(integrate.ChangeSpatialIdsZoom(s.sp, 21)) }),
 		I("integrate.MergeExtendedSpatialIds", func() string { return sortedJoin(integrate.MergeExtendedSpatialIds(s.ext, 19, 19)) }),
+		// two merges that share the voxel 5/10/12/5/2 (divided into 4096 cells because of the far finer companion): in the
+		// first its seven siblings complete the parent, in the second it stands alone and must come back unchanged
+		I("integrate.MergeExtendedSpatialIds(complete family + fine companion)", func() string { return sortedJoin(integrate.MergeExtendedSpatialIds(s.family, 4, 4)) }),
+		I("integrate.MergeExtendedSpatialIds(one member + fine companion)", func() string { return sortedJoin(integrate.MergeExtendedSpatialIds(s.family[:2], 4, 4)) }),
 		I("integrate.MergeSpatialIds", func() string { return sortedJoin(integrate.MergeSpatialIds(s.sp, 19)) }),
 		I("integrate.HorizontalZoom/VerticalZoom", func() string {
 			return fmt.Sprint(integrate.HorizontalZoom(5, 3, 7, 7), integrate.VerticalZoom(5, -7, 3), integrate.VerticalZoom(5, -7, 7))
@@ -278,6 +284,16 @@ func c19Build() (*c19Shared, []c19Inst) {
 		}),
 		I("transform.FitClearanceAroundExtendedSpatialID", func() string {
 			h, v, e := transform.FitClearanceAroundExtendedSpatialID(s.ext[0], 60)
+			return fmt.Sprint(h, v, e)
+		}),
+		// two clearances one ulp apart that (on the tree the pair was measured on) lie on opposite sides of a layer
+		// threshold of this voxel: adjacent in the table, so the reference rounds ask them in both orders
+		I("transform.FitClearanceAroundExtendedSpatialID(just below a layer threshold)", func() string {
+			h, v, e := transform.FitClearanceAroundExtendedSpatialID(s.ext[0], math.Float64frombits(0x404fc054ce3ba2dc))
+			return fmt.Sprint(h, v, e)
+		}),
+		I("transform.FitClearanceAroundExtendedSpatialID(one ulp above it)", func() string {
+			h, v, e := transform.FitClearanceAroundExtendedSpatialID(s.ext[0], math.Float64frombits(0x404fc054ce3ba2dd))
 			return fmt.Sprint(h, v, e)
 		}),
 		I("transform.FitClearanceAroundExtendedSpatialID(highlat)", func() string {
